@@ -56,22 +56,7 @@ def scenario(kind, name, layout, sort, frm, parent_removed, noise):
     return world, steps, d, path, put_extra, rest_extra, e
 
 
-LISTING_RE = re.compile(r'^ *(\d+) (\d{4}-\d\d-\d\d \d\d:\d\d:\d\d|None) ', re.M)
-
-
-def parse_listing(out):
-    """[(index, date, path)]; a path may contain newlines, so split on the line heads"""
-    heads = list(LISTING_RE.finditer(out))
-    res = []
-    for i, m in enumerate(heads):
-        end = heads[i + 1].start() if i + 1 < len(heads) else out.find('What file to restore')
-        if end < 0:
-            end = len(out)
-        p = out[m.end():end]
-        if p.endswith('\n'):
-            p = p[:-1]
-        res.append((int(m.group(1)), m.group(2), p))
-    return res
+parse_listing = K.restore_listing
 
 
 def _case(kind, name, layout, sort, frm, parent_removed, noise):
